@@ -28,6 +28,7 @@ from .selectors import ListSelector
 from .serialize import canonical_string
 
 if TYPE_CHECKING:
+    from .env import JSONPathEnvironment
     from .path import JSONPath
     from .selectors import FilterContext
 
@@ -730,14 +731,15 @@ class FunctionExtension(FilterExpression):
 class CurrentKey(FilterExpression):
     """The key/property or index associated with the current object."""
 
-    __slots__ = ()
+    __slots__ = ("env",)
 
-    def __init__(self) -> None:
+    def __init__(self, env: JSONPathEnvironment) -> None:
+        self.env = env
         super().__init__()
         self.volatile = True
 
     def __str__(self) -> str:
-        return "#"
+        return self.env.key_token
 
     def __eq__(self, other: object) -> bool:
         return isinstance(other, CurrentKey)
@@ -755,9 +757,6 @@ class CurrentKey(FilterExpression):
 
     def set_children(self, children: List[FilterExpression]) -> None:  # noqa: ARG002
         return
-
-
-CURRENT_KEY = CurrentKey()
 
 
 def walk(expr: FilterExpression) -> Iterable[FilterExpression]:
